@@ -6,7 +6,7 @@ import json, sys, os, subprocess, glob
 rnd = sys.argv[1]
 ids = sys.argv[2:]
 props = {json.loads(l)["id"]: json.loads(l) for l in open("/verif/properties.jsonl")}
-TASK = open("/verif/tools/seedtask.md").read()
+TASK = open("/verif/tools/seedtask4.md" if rnd == "4" else "/verif/tools/seedtask.md").read()
 for i in ids:
     wt = f"/tmp/seed{rnd}-{i}"
     subprocess.run(["git", "-C", "/repo", "worktree", "remove", "--force", wt], capture_output=True)
